@@ -171,6 +171,8 @@ def search(ctx, deep=False):
     items += [(t, st, ins) for (t, info, st, ins) in progs]
     fails = _l2_cases(items)
     seen, out = set(), []
+    # report a semantic failure (concrete runtime input) before loud failures of the pass
+    fails.sort(key=lambda f: 0 if f["what"] == "assumed-state-contradicted" else 1)
     for f in fails:
         if f["what"] not in seen:
             seen.add(f["what"])
